@@ -16,7 +16,8 @@ from typing import Any, Iterable
 
 from .prog import AnalysisError, unparse
 
-SAFE = {"getattr": getattr, "hasattr": hasattr, "type": type, "dict": dict, "tuple": tuple, "enumerate": enumerate, "zip": zip, "int": int, "float": float,
+SAFE = {"reversed": reversed, "range": range, "map": map, "filter": filter, "sum": sum, "min": min, "max": max, "abs": abs, "round": round,
+        "getattr": getattr, "hasattr": hasattr, "type": type, "dict": dict, "tuple": tuple, "enumerate": enumerate, "zip": zip, "int": int, "float": float,
         "any": any, "all": all, "isinstance": isinstance, "len": len, "str": str, "bool": bool, "frozenset": frozenset,
         "set": set, "list": list, "sorted": sorted, "None": None, "True": True, "False": False}
 
